@@ -10,11 +10,10 @@ func denomOK(d *Term) *Term {
 	if d.IsConst() {
 		return MkBool(denomRe.MatchString(d.SV))
 	}
-	if d.Op == "uf" && d.SV == "coin_denom" {
-		return App("coinok", d.Args[0])
-	}
-	return App("denomok", d)
+	return InRe(d, reDenom, denomRe.MatchString)
 }
+
+const reDenom = `(re.++ (re.union (re.range "a" "z") (re.range "A" "Z")) ((_ re.loop 2 127) (re.union (re.range "a" "z") (re.range "A" "Z") (re.range "0" "9") (str.to_re "/") (str.to_re ":") (str.to_re ".") (str.to_re "_") (str.to_re "-"))))`
 
 func mkCoin(s *State, denom, amt *Term) Value {
 	return &StructV{F: []Value{denom, &StructV{F: []Value{newBig(s, amt)}}}}
@@ -33,19 +32,18 @@ func coinParts(s *State, v Value) (denom, amt *Term) {
 
 func init() {
 	reg := RegisterIntrinsic
-	DeclareUF("denomok", []Sort{SStr}, SBool, func(a *Term) []*Term {
-		return []*Term{Implies(a, And(Le(MkI(3), Len(a.Args[0])), Le(Len(a.Args[0]), MkI(128))))}
-	})
+	// A-COINSTR: a string parses as a coin iff it is <decimal amount><denom> (canonical spelling)
 	DeclareUF("coinok", []Sort{SStr}, SBool, func(a *Term) []*Term {
 		s := a.Args[0]
-		return []*Term{Implies(a, And(Le(MkI(0), App("coin_amt", s)), App("denomok", App("coin_denom", s))))}
+		amt, d := App("coin_amt", s), App("coin_denom", s)
+		return []*Term{Implies(a, And(Le(MkI(0), amt), denomOK(d), Eq(s, Concat(FromInt(amt), d))))}
 	})
 	DeclareUF("coin_denom", []Sort{SStr}, SStr, nil)
 	DeclareUF("coin_amt", []Sort{SStr}, SInt, nil)
 	DeclareUF("coinstr", []Sort{SInt, SStr}, SStr, func(a *Term) []*Term {
 		amt, d := a.Args[0], a.Args[1]
 		return []*Term{Implies(And(Le(MkI(0), amt), denomOK(d)),
-			And(App("coinok", a), Eq(App("coin_denom", a), d), Eq(App("coin_amt", a), amt)))}
+			And(App("coinok", a), Eq(App("coin_denom", a), d), Eq(App("coin_amt", a), amt), Eq(a, Concat(FromInt(amt), d))))}
 	})
 	reg(sdkT+".ValidateDenom", func(c *CallCtx, a []Value) []Outcome {
 		ok := denomOK(a[0].(*Term))
